@@ -14,6 +14,13 @@
 //	                   solo run.
 //	D. race pass       the same bodies free-running on goroutines (meaningful in the
 //	                   -race build; see check.sh).
+//	H. held values     every callable (up to four positional slots) x literal position x
+//	                   fillers carrying a per-load datum x routing x literal capacity class;
+//	                   what every load handed out is held and rendered again after every
+//	                   later load (held.go).
+//
+// In every family the observed state of the parsed tree includes the spare capacity
+// behind its cell arrays (held.go, spareAll).
 package c09
 
 import (
@@ -45,7 +52,8 @@ type shared struct {
 	fp    uint64
 	dump  string
 	prog  lisp.Program
-	std   bool // the program names a standard-library package: its runtimes are built with the stdlib loaded
+	std   bool   // the program names a standard-library package: its runtimes are built with the stdlib loaded
+	spare string // rendering of the spare capacity behind every node's cells (see spareAll)
 }
 
 // sharedReader hands out the SAME parsed expressions on every Read.
@@ -61,6 +69,7 @@ func parseShared(src string) (*shared, error) {
 	s := &shared{src: src, exprs: exprs, std: needsStdlib(src)}
 	s.fp = lisp.SealedASTFingerprint(exprs)
 	s.dump = dumpAll(exprs)
+	s.spare = spareAll(exprs)
 	s.prog, _ = lisp.ReadProgram(sharedReader{exprs}, "shared", strings.NewReader(""))
 	return s, nil
 }
@@ -117,7 +126,18 @@ func (s *shared) intact() string {
 	if d := dumpAll(s.exprs); d != s.dump {
 		return "structural dump of the parsed tree changed: " + firstDiff(s.dump, d)
 	}
+	if sp := spareAll(s.exprs); sp != s.spare {
+		return fmt.Sprintf("spare capacity behind a parsed list was written: at parse %q, now %q", s.spare, sp)
+	}
 	return ""
+}
+
+// treeClass names the kind of change intact reported.
+func treeClass(d string) string {
+	if strings.HasPrefix(d, "spare capacity") {
+		return "spare-capacity-written"
+	}
+	return "tree-changed"
 }
 
 func firstDiff(a, b string) string {
@@ -174,7 +194,11 @@ var skipCallable = map[string]bool{
 	"testing:benchmark-simple": true,
 }
 
-func registry(stdlib bool) []callable {
+func registry(stdlib bool) []callable { return registryMax(stdlib, 3) }
+
+// registryMax lists every registered callable with its number of positional slots clamped to maxArity (a &rest callable
+// gets at least three).
+func registryMax(stdlib bool, maxArity int) []callable {
 	env := newEnv(stdlib)
 	reg := env.Runtime.Registry
 	var out []callable
@@ -219,8 +243,8 @@ func registry(stdlib bool) []callable {
 			if rest && n < 3 {
 				n = 3
 			}
-			if n > 3 {
-				n = 3
+			if n > maxArity {
+				n = maxArity
 			}
 			if n == 0 {
 				continue
@@ -348,15 +372,15 @@ func programViolates(src string, stdlib bool) (string, string) {
 	envA := newEnv(stdlib)
 	a1 := loadShared(envA, s, nil)
 	if d := s.intact(); d != "" {
-		return "tree-changed", "after the first load: " + d
+		return treeClass(d), "after the first load: " + d
 	}
 	a2 := loadShared(envA, s, nil)
 	if d := s.intact(); d != "" {
-		return "tree-changed", "after the second load in the same runtime: " + d
+		return treeClass(d), "after the second load in the same runtime: " + d
 	}
 	b1 := loadShared(newEnv(stdlib), s, nil)
 	if d := s.intact(); d != "" {
-		return "tree-changed", "after a load in a second runtime: " + d
+		return treeClass(d), "after a load in a second runtime: " + d
 	}
 	if v := snap.Verify(); v != "" {
 		return "singleton-changed", "singleton " + v + " drifted"
@@ -508,6 +532,12 @@ var concurrentPrograms = []string{
 	"(list (regexp:regexp-match? (format-string \"^a{}[0-9]+$\" whoami) \"a1\") (regexp:regexp-match? \"^b+$\" \"bb\") (regexp:regexp-match? (format-string \"c{}\" (+ whoami 1000)) \"c\") (string:uppercase (to-string whoami)))",
 	"(list (s:validate (s:make-validator \"v\" s:string (s:regexp (format-string \"^{}+$\" whoami))) (to-string whoami)) (json:dump-string (sorted-map (to-string whoami) (vector whoami))) (json:load-string (format-string \"[{}]\" whoami)) (time:format-rfc3339 (time:parse-rfc3339 \"2020-01-02T03:04:05Z\")))",
 	"(list (regexp:regexp-match? (regexp:regexp-compile \"^[0-9]+$\") (to-string whoami)) (base64:encode (to-bytes (to-string whoami))) (math:abs (- 0 whoami)))",
+	// per-runtime data placed at the END of (and in front of, and inside) literals, views and macro &rest lists whose
+	// parsed cell arrays have spare capacity (3 and 5 cells: the parser grows cells with append), through every
+	// list-growing builtin; the value is held across further evaluation steps before it is returned
+	"(let ([r (insert-sorted 'list '(10 20 30) < (+ 1000 whoami))]) (+ 0 0) (list r '(10 20 30)))",
+	"(let* ([l '(10 20 30)] [a (append 'list l whoami)] [b (concat 'list l (list whoami))] [c (insert-index 'list l 3 whoami)] [d (insert-sorted 'list (cdr l) < (+ 1000 whoami))] [e (cons whoami l)] [f (insert-sorted 'list l < (+ 15 (mod whoami 2)))] [g (insert-sorted 'list l > (+ 1000 whoami))] [h (insert-sorted 'list l < (+ 1000 whoami))]) (+ 0 0) (list a b c d e f g h l))",
+	"(defmacro mr (&rest xs) (quasiquote (unquote xs))) (let* ([r (insert-sorted 'list (mr 10 20 30 40 50) < (+ 1000 whoami))] [q (append 'list (mr 1 2 3 4 5) whoami)] [v (insert-sorted 'vector '(10 20 30 40 50) < (+ 1000 whoami))]) (+ 0 0) (list r q v (insert-index 'list '(1 2 3 4 5) 5 whoami)))",
 }
 
 // ---------------------------------------------------------------------------
@@ -583,19 +613,30 @@ func historyViolates(src string, h []int) (string, string) {
 	snap := lisp.TakeSingletonSnapshot()
 	envs := map[int]*el.Env{}
 	refs := map[int]*el.Env{}
+	var hs []held
 	for step, rt := range h {
 		if envs[rt] == nil {
 			envs[rt] = newEnv(s.std)
 			refs[rt] = newEnv(s.std)
 		}
-		got := loadShared(envs[rt], s, nil)
-		want := refs[rt].Load(src)
+		// a datum of this load's own: no two loads of a history compute the same values from it
+		id := 100*(rt+1) + step
+		who(envs[rt], id)
+		who(refs[rt], id)
+		v, got := loadKeep(envs[rt], s)
+		rv, want := loadFreshKeep(refs[rt], src)
 		if d := s.intact(); d != "" {
-			return "tree-changed", fmt.Sprintf("after load %d (runtime %d): %s", step+1, rt, d)
+			return treeClass(d), fmt.Sprintf("after load %d (runtime %d): %s", step+1, rt, d)
 		}
 		if norm(got) != norm(want) {
 			return "load-differs", fmt.Sprintf("load %d (runtime %d): shared parse gives %s, a fresh parse gives %s", step+1, rt, got.Full(), want.Full())
 		}
+		// what earlier loads handed out must read as it did then
+		if c, d := checkHeld(hs, fmt.Sprintf("after load %d (runtime %d)", step+1, rt)); c != "" {
+			return c, d
+		}
+		hs = append(hs, held{v, renderHeld(v), fmt.Sprintf("load %d (runtime %d) of the shared parse", step+1, rt)},
+			held{rv, renderHeld(rv), fmt.Sprintf("load %d (runtime %d) of a fresh parse (reference)", step+1, rt)})
 	}
 	if v := snap.Verify(); v != "" {
 		return "singleton-changed", v
@@ -640,7 +681,7 @@ func scheduleExplore(r *core.Run, src string, k, bound int, stop func() bool) {
 		solos[i] = soloRun(s, i)
 	}
 	if d := s.intact(); d != "" {
-		r.Violate("c09", "C-schedule:tree-changed-in-solo-run", scase{src, k, nil}, "tree unchanged", d, "")
+		r.Violate("c09", "C-schedule:"+treeClass(d)+"-in-solo-run", scase{src, k, nil}, "tree unchanged", d, "")
 		return
 	}
 	snap := lisp.TakeSingletonSnapshot()
@@ -718,6 +759,8 @@ func errClass(err error) string {
 		return "fingerprint-changed"
 	case strings.Contains(s, "structural dump"):
 		return "tree-changed"
+	case strings.Contains(s, "spare capacity"):
+		return "spare-capacity-written"
 	case strings.Contains(s, "singleton"):
 		return "singleton-changed"
 	case strings.Contains(s, "solo run"):
@@ -774,7 +817,7 @@ func freeRunning(r *core.Run) {
 		wg.Wait()
 		n += 8 * 6 * 2
 		if d := s.intact(); d != "" {
-			r.Violate("c09", "D-free-running:tree-changed", rcase{src, false}, "tree unchanged", d, "")
+			r.Violate("c09", "D-free-running:"+treeClass(d), rcase{src, s.std}, "tree unchanged", d, "")
 		}
 	}
 	r.AddEvals(int64(n))
@@ -839,9 +882,12 @@ func tableFresh(r *core.Run) {
 func run(r *core.Run) {
 	r.Rule("E: for every registered callable x argument tuple (0..2 constructor forms over 12 values) the result is mutated in place in every way and the call repeated: same oracle as A (process-wide mutable values handed out by fast paths); A: every registered callable of a stdlib runtime x every argument position (<=3) x filler tuple x routing of a program literal into that position (quoted literal, cdr view, slice 'list view, nested element, &rest list, quasiquote output, macro &rest list, append copy, slice 'vector, append 'vector, apply into a &rest list, &rest view, constant top level / constant sub-list / view of a constant sub-list of a quasiquote template, spliced literal, constant part of a macro's template, the &rest list of a macro reached through macroexpand / macroexpand-1 of a quoted form directly and behind pass-through macros) x literal x follow-up mutator (none, stable-sort, append!, sort of the literal itself): shared parse loaded twice in one runtime and once in another vs a fresh parse; " +
 		"P: every elpspath operator (? ?set! ?set ?del! ?del ?nil! ?nil) x document x step sequence (length 0..2 over index, key, '*, whole and partial ranges) with the literal routed in as the document, as a member of it and as the replacement value, x 10 in-place writers on the result: same oracle as A; " +
-		"B: BFS over all load histories (runtime index per load, canonical numbering) up to the depth bound for every hand-written program; " +
+		"H: every registered callable with up to FOUR positional slots x position of the literal x filler tuple containing a per-load datum (whoami: differs in every load) x routing of a sorted integer literal of L cells (L per capacity class of the parser's append growth: spare slots behind the literal or none) x whoami rank (above / below the literal's elements): one parse loaded twice in one runtime and once in another, each load with its own whoami, against reference runtimes given a fresh parse per load; the value every load handed out is HELD and rendered again after every later load; " +
+		"B: BFS over all load histories (runtime index per load, canonical numbering) up to the depth bound for every hand-written program, every load with a whoami of its own, every handed-out value held and re-rendered after every later load; " +
 		"C: every schedule of K runtimes sharing one Program with at most the preemption bound, scheduling point = every evaluation step; invariants evaluated in every global state. Non-trivial: routing programs distinct by text; schedule programs by text")
 	r.Assume("the parsed tree is observed through lisp.SealedASTFingerprint plus an independent structural dump (type, name, numbers, quote/seal flags, positions, children) and lisp.TakeSingletonSnapshot")
+	r.Assume("the spare capacity of every cell array of the parsed tree (slots between len and cap, left by the parser's append growth) is part of the observed tree state in every family: a slot that is no longer empty is reported as spare-capacity-written")
+	r.Assume("H: a value handed out by a load is only reachable by the harness, so any change in its rendering after a later load of the Program is a write through shared storage; gensym callables are left out of H (per-runtime counters: C07/C10)")
 	r.Assume("memory-model effects below evaluation-step granularity are not modelled by the scheduler; the free-running pass under the race detector (check.sh builds it with -race) complements it")
 	if rr := os.Getenv("RACE_RESULT"); rr != "" {
 		r.Extra("D_race_detector_pass", rr)
@@ -866,6 +912,9 @@ func run(r *core.Run) {
 	if only == "" || only == "P" {
 		tablePaths(r)
 	}
+	if only == "" || only == "H" {
+		tableHeld(r)
+	}
 	if only == "" || only == "A" {
 		tableRouting(r)
 	}
@@ -880,6 +929,13 @@ func replay(v core.Violation) (bool, string) {
 		}
 		bad, detail := programViolates(k.Src, k.Std)
 		return bad != "", k.Src + "\n" + bad + ": " + detail
+	case strings.HasPrefix(v.Class, "H-held"):
+		k, err := core.CaseOf[heldCase](v)
+		if err != nil {
+			return false, err.Error()
+		}
+		bad, detail := heldViolates(k.Src, k.Who, true)
+		return bad != "", fmt.Sprintf("%s\nwhoami per load: %v\n%s: %s", k.Src, k.Who, bad, detail)
 	case strings.HasPrefix(v.Class, "B-history"):
 		k, err := core.CaseOf[hcase](v)
 		if err != nil {
